@@ -32,7 +32,7 @@ theorem with_capacity (rf : Refuse) (w : World) (d n : Nat) (plain : Bool) (hw :
         (step rf w (.withCapacity d n plain)).1.text d = some []) ∨
     ((step rf w (.withCapacity d n plain)).2 = failOut plain) := by
   simp only [step, hd, Option.isSome_none, Bool.false_eq_true, if_false]
-  rcases withCapacity_fresh (st := w.statics) (linv_empty hw hd) rf n with ⟨hp1, he, hs⟩ | ⟨hp1, r, he, g, hc⟩
+  rcases withCapacity_fresh (st := w.statics) (linv_empty hw hd) rf n with ⟨hp1, he, hs⟩ | ⟨hp1, r, he, g, hc, _⟩
   · rw [he]; right; rfl
   · rw [he]; left; exact ⟨rfl, r, World.get_put_self .., hc, text_put_self g⟩
 
